@@ -407,9 +407,14 @@ def topological_sort(nodes):
     enumerator_owner = {member.name: node.name
                         for node in nodes if isinstance(node, Enum) for member in node.members
                         if member.name not in available}
+    max_rotations = len(nodes)
     for index in range(len(nodes)):
+        rotations = 0
         while model_sort_rotate():
-            pass
+            rotations += 1
+            if rotations > max_rotations:
+                # each move descends one step along a dependency chain; only a cycle is longer than n
+                raise ParseError([(nodes[index].name, "cyclic dependency between definitions")])
 
 
 def _make_types_index(nodes_):
